@@ -19,7 +19,7 @@ CASES = {"quick": 1200, "thorough": 30000}  # schemas; each: up to 3 engine conf
 BUDGET = {"quick": 50, "thorough": 560}
 SCHEDULES = {"quick": 60, "thorough": 1500}
 RULE = (
-    "case = generated request (C01/C02 generators, bounded: <= 10 gated awaitables, lists <= 3, optional single fault) x engine "
+    "case = generated request (C01/C02 generators, bounded: <= 10 gated awaitables, lists <= 3, optional fault: one position, or 2-4 positions failing with one shared exception object) x engine "
     "configurations drawn from the 2x2x2 options (coerce_list_concurrently, coerce_parent_concurrently, gather/sync arguments coercer) "
     "plus per-resolver list_/parent_concurrently overrides and gated argument/input hooks x schedules: depth-first enumeration of every "
     "gate-release order incl. bursts (exhaustive when it fits the per-request budget, otherwise the budget plus Hypothesis-drawn scripts). "
@@ -166,6 +166,11 @@ def case(c, stats):
             if sites:
                 lab, key, f, _ = c02.pick_fault(c, sites)
                 spec["faults"] = [[list(key), c02.fault_to_json(f)]]
+                if c.maybe(35):
+                    # several positions failing with the same exception object: which of them completes first depends on the schedule
+                    fs = c02.shared_plain_set(c, sites)
+                    if fs:
+                        spec["faults"] = [[list(k), c02.fault_to_json(f)] for _, k, f, _ in fs]
         reqs.append(spec)
     for cfg in configs:
         plan = plan_for(base_plan, cfg)
